@@ -778,9 +778,6 @@ CO_ERR COSdoUploadBlock(CO_SDO *srv)
     CO_ERR   err;
     uint32_t size;
     uint32_t num = 0;
-    uint32_t txNum;
-    uint32_t byteOk = 0;
-    uint8_t *txBuf;
     uint8_t  finished =  0;
     uint8_t  seg;
     uint8_t  len;
@@ -791,30 +788,17 @@ CO_ERR COSdoUploadBlock(CO_SDO *srv)
     num          = srv->Blk.SegNum * 7u;
 
     if (srv->Blk.State == BLK_REPEAT) {
-        /* calculate number of bytes we need to repeat */
-        byteOk        = srv->Blk.SegOk * 7u;
-        num           = srv->Blk.SegCnt * 7u;
-        num          -= byteOk;
-        srv->Buf.Num  = num;
-        srv->Blk.Len += num;
+        /* rewind to the first byte behind the acknowledged segments */
+        num = srv->Blk.SegCnt * 7u;
         if (srv->Blk.LastValid < 7) {
-            srv->Blk.Len -= (7u - srv->Blk.LastValid);
+            num -= (7u - srv->Blk.LastValid);
         }
-        if (srv->Blk.SegOk > 0) {
-            /* remove successful transfered bytes at the front */
-            srv->Buf.Cur  = srv->Buf.Start;
-            txBuf         = srv->Buf.Start + byteOk;
-            txNum         = num;
-            while(txNum > 0) {
-                *srv->Buf.Cur = *txBuf;
-                srv->Buf.Cur++;
-                txBuf++;
-                txNum--;
-            }
-        } else {
-            /* repeat whole buffer (no remaining bytes needed) */
-            num = 0u;
-        }
+        num           -= srv->Blk.SegOk * 7u;
+        srv->Blk.Len  += num;
+        srv->Blk.Size  = srv->Blk.Len;
+        size = COObjGetSize(srv->Obj, srv->Node, 0);
+        (void)COObjReset(srv->Obj, srv->Node, size - srv->Blk.Len);
+        num = srv->Blk.SegNum * 7u;
     }
 
     if (num > 0u) {
@@ -894,11 +878,7 @@ CO_ERR COSdoAckUploadBlock(CO_SDO *srv)
         COSdoAbort(srv, CO_SDO_ERR_SEQ_NUM);
         COSdoAbortReq(srv);
         return (CO_ERR_SDO_ABORT);
-    } else if (seq < srv->Blk.SegCnt) {
-        srv->Blk.State = BLK_REPEAT;
-        srv->Blk.SegOk = seq;
-        result         = COSdoUploadBlock(srv);
-    } else if (srv->Blk.Len == 0) {
+    } else if ((seq == srv->Blk.SegCnt) && (srv->Blk.Len == 0)) {
         if (srv->Blk.LastValid <= 7) {
             val = (uint8_t)srv->Blk.LastValid;
             cmd = (uint8_t)0xC0 |
@@ -921,6 +901,10 @@ CO_ERR COSdoAckUploadBlock(CO_SDO *srv)
             if (srv->Blk.SegNum > CO_SDO_BUF_SEG) {
                 srv->Blk.SegNum = CO_SDO_BUF_SEG;
             }
+        }
+        if (seq < srv->Blk.SegCnt) {
+            srv->Blk.State = BLK_REPEAT;
+            srv->Blk.SegOk = seq;
         }
         result = COSdoUploadBlock(srv);
     }
